@@ -484,7 +484,7 @@ pub fn inits(rng: &mut Rng, sig_len: usize) -> Vec<String> {
 }
 
 fn with_signer(step: &str, signer: usize, fail: bool) -> String {
-    if step.contains("op=snap") || step.contains("op=load") || step.contains("op=cmp") || step.contains("op=redecode") || step.contains("op=tamperdec") {
+    if step.contains("op=snap") || step.contains("op=teardown") || step.contains("op=load") || step.contains("op=cmp") || step.contains("op=redecode") || step.contains("op=tamperdec") {
         step.to_string()
     } else {
         format!("{step} signer={signer} fail={}", fail as u8)
@@ -541,8 +541,16 @@ pub fn gen_hist(schemes: &[&str], rng: &mut Rng, thorough: bool, cases: &mut Vec
                     2 => (2, false),
                     _ => (if s1 == 1 { 1 } else { 0 }, false),
                 };
-                c.lines.push(with_signer(a, s1, f1));
+                // every third pair: nothing looks at the record's bytes between the two steps
+                let quiet = if (i * 5 + j) % 3 == 0 && a.contains("signer=") == false && !a.contains("op=snap") && !a.contains("op=cmp") && !a.contains("op=load") && !a.contains("op=redecode") && !a.contains("op=tamperdec") { " quiet=1" } else { "" };
+                c.lines.push(format!("{}{}", with_signer(a, s1, f1), quiet));
                 c.lines.push(with_signer(b, s2, f2));
+                if !quiet.is_empty() {
+                    // and a third step, the second one quiet as well
+                    let l = c.lines.pop().unwrap();
+                    c.lines.push(format!("{l} quiet=1"));
+                    c.lines.push(with_signer("step op=set_udp4 port=30303", 0, false));
+                }
                 cases.push(c);
             }
         }
@@ -623,6 +631,16 @@ pub fn gen_hist(schemes: &[&str], rng: &mut Rng, thorough: bool, cases: &mut Vec
                     cases.push(c);
                 }
             }
+        }
+        // the library used while a thread is exiting (from the destructor of a thread-local)
+        for (i, st) in ["step op=set_udp4 port=30303", "step op=set_seq seq=9", "step op=redecode"].iter().enumerate() {
+            let mut c = Case::new("hist", scheme, id, "thread-teardown");
+            id += 1;
+            c.keys = keysets[i % keysets.len()].clone();
+            c.lines.push("init kind=build calls=udp4:1;ip4:7f000001 signer=0".into());
+            c.lines.push(with_signer(st, 0, false));
+            c.lines.push("step op=teardown".into());
+            cases.push(c);
         }
         // keys that are not well-formed UTF-8 and whose lossy text images coincide or change order
         for (i, ks) in [["80", "81"], ["9c01", "c3a9"], ["c3a9", "ff"], ["c0", "c1"], ["e28081", "e2808100"], ["00", "80"]]
@@ -720,7 +738,8 @@ pub fn gen_hist(schemes: &[&str], rng: &mut Rng, thorough: bool, cases: &mut Vec
                 } else {
                     (signer, false)
                 };
-                c.lines.push(with_signer(&st, s, f));
+                let q = if rng.chance(1, 4) && st.contains("op=") && !st.contains("op=snap") && !st.contains("op=cmp") && !st.contains("op=load") && !st.contains("op=redecode") && !st.contains("op=tamperdec") { " quiet=1" } else { "" };
+                c.lines.push(format!("{}{}", with_signer(&st, s, f), q));
             }
             cases.push(c);
         }
